@@ -3,16 +3,17 @@
 Stores a confirmed property-breaking change under /verif/seeded/<name>/ (patch re-diffed against /repo HEAD)."""
 import json, os, shutil, subprocess, sys
 name, prop, patch, demo, clog, caught, needs = sys.argv[1:8]
+REPO = os.environ.get('SEED_REPO', '/repo')  # a worktree at /repo's HEAD may stand in while /repo is busy
 notes = sys.argv[8] if len(sys.argv) > 8 else None
 d = os.path.join('/verif/seeded', name)
 os.makedirs(d, exist_ok=True)
-assert subprocess.run(['git', '-C', '/repo', 'diff', '--quiet']).returncode == 0, '/repo dirty'
-r = subprocess.run(['git', '-C', '/repo', 'apply', patch])
+assert subprocess.run(['git', '-C', REPO, 'diff', '--quiet']).returncode == 0, '/repo dirty'
+r = subprocess.run(['git', '-C', REPO, 'apply', patch])
 if r.returncode != 0:
-    r = subprocess.run('cd /repo && patch -p1 --no-backup-if-mismatch < %s' % patch, shell=True)
+    r = subprocess.run('cd %s && patch -p1 --no-backup-if-mismatch < %s' % (REPO, patch), shell=True)
     assert r.returncode == 0, 'patch does not apply'
-diff = subprocess.run(['git', '-C', '/repo', 'diff', '--', 'src'], capture_output=True, text=True).stdout
-subprocess.run(['git', '-C', '/repo', 'checkout', '--', '.'])
+diff = subprocess.run(['git', '-C', REPO, 'diff', '--', 'src'], capture_output=True, text=True).stdout
+subprocess.run(['git', '-C', REPO, 'checkout', '--', '.'])
 open(os.path.join(d, 'patch.diff'), 'w').write(diff)
 shutil.copy(demo, os.path.join(d, 'demo.rs'))
 if notes and os.path.exists(notes):
